@@ -191,7 +191,12 @@ func (w *PullWorld) sync(desc string) {
 		w.add("C02.list.error", "C02", "pull", "listing failed: %v", err)
 		return
 	}
-	w.addAll(w.Model.CompareListing(w.Clock.Peek(), desc, items), "pull/listing")
+	vs := w.Model.CompareListing(w.Clock.Peek(), desc, items)
+	for i := range vs {
+		// a refused / conflicting call that changed the queue breaks C11 / C04
+		vs[i].Props = append(vs[i].Props, "C11", "C04")
+	}
+	w.addAll(vs, "pull/listing")
 	w.Res.States = append(w.Res.States, w.Model.Hash())
 }
 
